@@ -487,7 +487,10 @@ func (t *tOps) remove(fd storage.FileDesc) {
 			t.blockCache.EvictNS(uint64(fd.Num))
 		}
 		// Try to reuse file num, useful for discarded transaction.
-		t.s.reuseFileNum(fd.Num)
+		if t.s.reuseFileNum(fd.Num) && !t.evictRemoved && t.blockCache != nil {
+			// The number will name another table, its cached blocks must go.
+			t.blockCache.EvictNS(uint64(fd.Num))
+		}
 	})
 }
 
